@@ -95,9 +95,11 @@ def _items(rng):
             fname = rng.choice([f"data{nbin}.bin", f"data{nbin}.bin", f"sub/blob{nbin}.dat", f"sub/deep/x{nbin}.b.in"])
             if rng.random() < 0.4:
                 # different files with the same base name in different directories (their symbols carry the whole path)
-                fname = rng.choice(["", "", "sub/", "sub/deep/", "gfx/"]) + rng.choice(["title.bin", "blob.dat"])
-                if any(it["d"] == "incbin" and it["f"] == fname for it in items):
-                    fname = f"u{nbin}/" + fname
+                fname = rng.choice(["", "", "sub/", "sub/deep/", "gfx/", "./", "sub/../", "./gfx/"]) + rng.choice(["title.bin", "blob.dat", "my.font.bin"])
+                import os.path as _op
+
+                if any(it["d"] == "incbin" and _op.normpath(it["f"]) == _op.normpath(fname) for it in items):
+                    fname = f"u{nbin}/" + fname.replace("./", "", 1) if fname.startswith("./") else f"u{nbin}/" + fname
             items.append({"d": "incbin", "f": fname, "spec": spec})
             nbin += 1
     return items
